@@ -79,6 +79,10 @@ def configs(tier):
     # inferred effect of substitutions that are not in the catalogue (novel core variants)
     for g in ("toy", "GA", "GB", "GD"):
         c.append({"kind": "infer", "gene": g})
+    # added / lost variants are reported in RefSeq notation: it must be the same string in
+    # both builds for every catalogued variant
+    for g in ("toy", "GA", "GB", "GD", "GE"):
+        c.append({"kind": "notation", "gene": g})
     if tier == "thorough":
         c.append({"kind": "major", "gene": "cyp2c19", "cn": ["1", "1"], "support": 4})
         c.append({"kind": "major", "gene": "cyp2d6", "cn": ["1", "1"], "support": 4})
@@ -88,6 +92,39 @@ def configs(tier):
 
 def run_config(cfg):
     return globals()["run_" + cfg["kind"]](cfg)
+
+
+def run_notation(cfg):
+    res = new_result(cfg)
+    eng = Engine(name="c13n")
+    genes, byref = _pileup_tables(cfg["gene"])
+    ids = sorted(k for k, v in byref.items() if len(v) == 2)
+    vi = z3.Int("variant")
+    tag = f"notation/{cfg['gene']}"
+
+    def run():
+        rid = ids[eng.choose(vi, range(len(ids)))]
+        return rid, {b: g.get_refseq(byref[rid][b]) for b, g in genes.items()}
+
+    k = 0
+    for dec, pc, (rid, out) in eng.explore(run, [], max_paths=10000):
+        k += 1
+        same = out["hg19"] == out["hg38"]
+        ob(res, f"{tag}: a catalogued variant is reported in the same RefSeq notation in "
+                "both builds", "holds" if same else "sat")
+        if not same:
+            res["violations"].append({
+                "what": f"{tag}: variant {rid[0] + 1}{rid[1]} is reported as {out['hg19']} on "
+                        f"hg19 and {out['hg38']} on hg38", "key": "notation:" + cfg["gene"],
+                "replay": {"kind": "notation", "gene": cfg["gene"], "rid": list(rid)}})
+    seen = {}
+    for v in res["violations"]:
+        seen.setdefault(v["key"], v)
+    res["violations"] = list(seen.values())
+    res["stats"] = {**dict(eng.stats), "paths": k}
+    res["obligations"] = [{"label": o["label"], "status": o["status"], "secs": 0}
+                          for o in res["obligations"]]
+    return res
 
 
 def _infer_case(genes, r, alt):
@@ -617,6 +654,10 @@ def replay(o):
 
     if o["kind"] == "cn":
         return True, "structure models differ (symbolic)"
+    if o["kind"] == "notation":
+        genes, byref = _pileup_tables(o["gene"])
+        out = {b: g.get_refseq(byref[tuple(o["rid"])][b]) for b, g in genes.items()}
+        return out["hg19"] != out["hg38"], f"{out}"
     if o["kind"] == "infer":
         genes = {b: gengene.load(o["gene"], b) for b in ("hg19", "hg38")}
         out = _infer_case(genes, o["r"], o["alt"])
